@@ -296,6 +296,9 @@ func (a *analyzer) analyze(fn *ssa.Function) *summary {
 	if len(fn.Blocks) == 0 {
 		return sum
 	}
+	if os.Getenv("VLDEBUG") == "analyze:"+fn.Name() {
+		fn.WriteTo(os.Stderr)
+	}
 	in := make([]*state, len(fn.Blocks))
 	visits := make([]int, len(fn.Blocks))
 	in[0] = newState()
@@ -311,6 +314,9 @@ func (a *analyzer) analyze(fn *ssa.Function) *summary {
 		st := in[bi].clone()
 		if st.bottom {
 			continue
+		}
+		if os.Getenv("VLDEBUG") == "analyze:"+fn.Name() {
+			fmt.Fprintf(os.Stderr, "VISIT block %d ov=%v\n", b.Index, st.ov)
 		}
 		outs := a.transferBlock(fn, b, st, sum)
 		for i, succ := range b.Succs {
@@ -868,6 +874,26 @@ func (a *analyzer) transferBlock(fn *ssa.Function, b *ssa.BasicBlock, st *state,
 			if haveLo && haveHi && st.atEntry[x.Low] && hi == (iv{0, 0}) {
 				st.atEntry[x] = true // mark slice value as "token = whole advance"
 			}
+		case *ssa.Index:
+			// input[i] outside the read primitive (go/ssa: indexing a string is an Index): i must be a cursor snapshot
+			// strictly below len(input)
+			ld, ok := x.X.(*ssa.UnOp)
+			if !ok || ld.Op != token.MUL || !isRecvField(ld.X, fn, a.inIdx, a.cursorT) {
+				continue
+			}
+			okIdx, why := true, ""
+			m, have := st.marks["v:"+x.Index.Name()]
+			switch {
+			case !have:
+				okIdx, why = false, "the index is not a cursor snapshot"
+			case st.ov >= INF || st.ov-m.lo >= 0:
+				okIdx, why = false, "the index may be at or beyond len(input) (the cursor may stand at the end of the input, or past it after a read at the end)"
+			default:
+				if e := st.marks["entry"]; e.lo < 0 {
+					okIdx, why = false, "the cursor may be before the entry position"
+				}
+			}
+			a.rec("O1", fn, fmt.Sprintf("input index #%d is within 0 <= i < len(input)", a.ord(x)), x, okIdx, "indexing the input may be out of range: "+why)
 		case *ssa.Call:
 			callee := x.Call.StaticCallee()
 			if callee == a.next {
@@ -1143,6 +1169,35 @@ func (a *analyzer) refine(fn *ssa.Function, st *state, cond ssa.Value, truth boo
 			}
 		}
 		return st
+	}
+	// snapshot < len(input): the cursor is at least one byte before the end, less what was consumed since the snapshot
+	{
+		isLenInput := func(v ssa.Value) bool {
+			c, ok := v.(*ssa.Call)
+			if !ok || len(c.Call.Args) != 1 {
+				return false
+			}
+			if bi, isB := c.Call.Value.(*ssa.Builtin); !isB || bi.Name() != "len" {
+				return false
+			}
+			ld, ok := c.Call.Args[0].(*ssa.UnOp)
+			return ok && ld.Op == token.MUL && isRecvField(ld.X, fn, a.inIdx, a.cursorT)
+		}
+		var snap ssa.Value
+		switch {
+		case op == token.LSS && isLenInput(bo.Y):
+			snap = x
+		case op == token.GTR && isLenInput(bo.X):
+			snap = y
+		}
+		if snap != nil {
+			if m, ok := st.marks["v:"+snap.Name()]; ok && m.hi < INF {
+				if nb := m.hi - 1; nb < st.ov {
+					st.ov = nb
+				}
+			}
+			return st
+		}
 	}
 	// pos_now <= snapshot where the cursor cannot be before the snapshot: the positions are equal (`p.position > start`
 	// as the test for "something was consumed")
